@@ -25,5 +25,5 @@ for p in sorted(pats):
     if fp:
         by_fp.setdefault(fp, []).append(p)
 table = {fp: ps[0] for fp, ps in by_fp.items() if len(ps) == 1}
-json.dump(table, open(os.path.join(X.VERIF, "tools", "pattern_canon.json"), "w", encoding="utf8"), indent=0, ensure_ascii=False, sort_keys=True)
+json.dump({"table": table, "known": sorted(pats)}, open(os.path.join(X.VERIF, "tools", "pattern_canon.json"), "w", encoding="utf8"), indent=0, ensure_ascii=False, sort_keys=True)
 print(len(pats), "patterns,", len(table), "with a fingerprint of their own,", sum(len(v) for v in by_fp.values() if len(v) > 1), "colliding (left textual)")
